@@ -159,6 +159,17 @@ func BuildText(text string, debug bool) (*Built, bool, error) {
 	return &Built{Res: res, A: a}, true, nil
 }
 
+// adaptProblem turns an adapter error into either an infrastructure problem
+// (the harness's assumptions about yaccgo's representation) or a violation
+// text (the grammar tables are inconsistent in themselves).
+func adaptProblem(c *Ctx, err error, text string) string {
+	if _, ok := err.(*yg.ErrRepresentation); ok {
+		c.Infra("%v", err)
+		return ""
+	}
+	return fmt.Sprintf("yaccgo's grammar tables are malformed: %v\n%s", err, text)
+}
+
 func decodeCase(raw json.RawMessage, v interface{}) string {
 	if err := json.Unmarshal(raw, v); err != nil {
 		return fmt.Sprint("cannot decode case: ", err)
